@@ -9,3 +9,4 @@ import MW.Props.C08
 #print axioms MW.Props.C08.failed_tx_changes_nothing
 #print axioms MW.Props.C08.success_was_authorized
 #print axioms MW.Props.C08.unauthorized_tx_without_effect
+#print axioms MW.Props.C08.matrix_covers_source_interface
